@@ -182,6 +182,35 @@ func runC16(c *Ctx, _ []string) {
 		}
 		emit("directed", f, r.Pick(scales))
 	}
+	// rounding boundaries: a symbol whose f*scale is exactly half of the total (odd and even totals), one below, one above
+	for _, sc := range scales {
+		for fcnt := 1; fcnt <= 6; fcnt++ {
+			for _, dt := range []int{-2, -1, 0, 1, 2} {
+				total := 2*fcnt*sc + dt
+				if total <= fcnt+1 {
+					continue
+				}
+				for nbig := 1; nbig <= 3; nbig++ {
+					f := mk()
+					f[10] = fcnt
+					rest := total - fcnt
+					for j := 0; j < nbig; j++ {
+						share := rest / (nbig - j)
+						f[100+7*j] = share
+						rest -= share
+					}
+					emit("half-boundary", f, sc)
+					// the scaled count exactly on quantum k + 1/2: f*scale = (2k+1)*total/2
+					g := mk()
+					g[3] = fcnt * 3
+					g[250] = 2*fcnt*sc + dt - fcnt*3
+					if g[250] > 0 {
+						emit("half-boundary", g, sc)
+					}
+				}
+			}
+		}
+	}
 	// near-threshold totals: total just around scale (many quantum-1 symbols)
 	for i := 0; i < 1500*c.Scale; i++ {
 		f := mk()
